@@ -5,6 +5,7 @@
          (operator[] is the documented unchecked exception)
  b  RF1  at(i): the guard entails length>0, min<=i<=max and failure throws
  c  RF1  xapyb/sapyb/axpby: the range guard mentions min and max of every operand and ends in error()
+ d       Array<1>::resize zero-fills exactly the elements outside the recorded old index range (old start / old size)
 """
 import re
 
@@ -214,6 +215,106 @@ def rule_c_operand_guards(ctx, fn):
         )
 
 
+def rule_d_zero_fill(ctx, fn):
+    """Array<1,T>::resize(min,max): elements newly exposed by growing are zero.  The function records the old index range,
+    resizes the base vector, then zero-fills below the old start and from old start + old length upwards."""
+    from engine.algebra import LocalDefs
+
+    fid = fn.qn + "(" + fn.sig + ")"
+    cfg = CFG(fn)
+    defs = LocalDefs(fn)
+    rs = [c for c in fn.calls() if (c.callee or "").endswith("VectorWithOffset::resize") and c.call_object() is not None and c.call_object().k == "CXXThisExpr"]
+    if len(rs) != 1:
+        ctx.unrec(fid, "expected exactly one call of the base class resize")
+        return
+    R = rs[0]
+    pmin, pmax = ("v%d" % p["d"] for p in fn.params[:2])
+    newmin, newmax = {"this.get_min_index()", pmin}, {"this.get_max_index()", pmax}
+
+    def old_value(node, wanted):
+        """node is a DeclRefExpr to a local with a single definition, evaluated before R, equal to one of `wanted` accessors"""
+        n = node.strip()
+        if n.k != "DeclRefExpr" or n.get("dk") != "local":
+            return None, key(n, True)
+        init = defs.single_def(n.get("d"))
+        if init is None:
+            return None, key(n, True)
+        k = key(init.strip())
+        before = init.i in cfg.pos and cfg.dominates(init, R) and init.i != R.i
+        return (k in wanted and before), key(init, True)
+
+    zero_loops = []
+    for lp in fn.walk():
+        if lp.k != "ForStmt":
+            continue
+        body = lp.c[3]
+        z = [m for m in body.walk() if (m.is_call() and m.callee == "stir::assign" and len(m.call_args()) == 2 and key(m.call_args()[1].strip()) in ("0", "0.0")) or (m.k == "BinaryOperator" and m.op == "=" and key(m.c[1].strip()) in ("0", "0.0"))]
+        if z and any("this.num[" in key(m, True) for m in z):
+            zero_loops.append(lp)
+    if len(zero_loops) != 3:
+        ctx.unrec(fid, "expected three zero-fill loops (old range empty / below old start / above old end), found %d" % len(zero_loops))
+        return
+    results = {}
+    for lp in zero_loops:
+        init, cond, inc = lp.c[0], lp.c[1], lp.c[2]
+        iv = [m for m in init.walk() if m.k == "VarDecl" and m.c]
+        if len(iv) != 1:
+            ctx.unrec(fid, "zero-fill loop at line %d: no single loop variable" % lp.line)
+            return
+        v = "v%d" % iv[0].get("d")
+        ik = key(iv[0].c[0].strip())
+        from engine.cfg import atoms as _atoms
+
+        cat = [(key(a.strip()), t) for a, t in _atoms(cond, True)]
+        upper_ok = any(k in ["(<= %s %s)" % (v, x) for x in newmax] and t for k, t in cat)
+        facts = cfg.facts_at(iv[0].c[0]) if iv[0].c[0].i in cfg.pos else frozenset()
+        empty_branch = any(tv is True and k.startswith("(== ") and k.endswith(" 0)") for k, tv, _r in facts)
+        if empty_branch:
+            # old range empty: everything is new
+            lenvar = [k for k, tv, _r in facts if tv is True and k.startswith("(== ") and k.endswith(" 0)")][0][4:-3]
+            ln = [m for m in fn.walk() if m.k == "DeclRefExpr" and key(m) == lenvar]
+            okl, how = old_value(ln[0], {"this.size()", "this.get_length()"}) if ln else (None, lenvar)
+            results["empty"] = (ik in newmin and upper_ok and okl is True, "old range empty (%s == 0, %s): zero [%s, new max]" % (lenvar, how, ik), okl)
+        elif ik in newmin:
+            # below the old start
+            lim = [k for k, t in cat if t and k.startswith("(< %s " % v)]
+            okl, how = (None, "?")
+            if lim:
+                nm = lim[0][len("(< %s " % v) : -1]
+                ref = [m for m in cond.walk() if m.k == "DeclRefExpr" and key(m) == nm]
+                okl, how = old_value(ref[0], {"this.get_min_index()"}) if ref else (None, nm)
+            results["below"] = (bool(lim) and upper_ok and okl is True, "zero [new min, old start) with old start = %s" % how, okl)
+        else:
+            # from old start + old length
+            e = iv[0].c[0].strip()
+            okl, how = None, key(e, True)
+            if e.k == "CallExpr" and e.callee == "std::max" and len(e.c) == 2:
+                parts = [a.strip() for a in e.c]
+                other = [a for a in parts if key(a) in newmin]
+                summ = [a for a in parts if key(a) not in newmin]
+                if other and summ and summ[0].k == "BinaryOperator" and summ[0].op == "+":
+                    a, b = summ[0].c[0].strip(), summ[0].c[1].strip()
+                    oa, ha = old_value(a, {"this.get_min_index()"})
+                    ob, hb = old_value(b, {"this.size()", "this.get_length()"})
+                    if oa is True and ob is None or oa is None:
+                        oa2, ha2 = old_value(b, {"this.get_min_index()"})
+                        ob2, hb2 = old_value(a, {"this.size()", "this.get_length()"})
+                        if oa2 is True:
+                            oa, ha, ob, hb = oa2, ha2, ob2, hb2
+                    okl = None if (oa is None or ob is None) else (oa and ob)
+                    how = "max(%s + %s, new min)" % (ha, hb)
+            results["above"] = (upper_ok and okl is True, "zero [%s, new max]" % how, okl)
+    for part in ("empty", "below", "above"):
+        if part not in results:
+            ctx.unrec(fid, "zero-fill loop for part '%s' not recognised" % part)
+            continue
+        ok, det, recognised = results[part]
+        if recognised is None:
+            ctx.unrec(fid, "zero-fill part '%s': bound not expressed through recorded old range (%s)" % (part, det))
+            continue
+        ctx.ob("C11.d-new-elements-zeroed", fid, "zero-fill:" + part, ok, fn.where(), det if ok else "newly exposed elements not covered: " + det)
+
+
 def run(ctx):
     ctx.explanation = (
         "Decides from the source, for VectorWithOffset, NumericVectorWithOffset and Array: (a) every raw subscript X.num[i] "
@@ -253,6 +354,13 @@ def run(ctx):
             calls = [c for c in fn.walk() if c.is_call() and (c.callee or "").endswith("::xapyb")]
             dep = [m for m in fn.walk() if m.k in ("CXXDependentScopeMemberExpr", "UnresolvedMemberExpr", "DependentScopeDeclRefExpr") and m.get("n") == "xapyb"]
             ctx.ob("C11.c-operand-range-guard", fn.qn + "(" + fn.sig + ")", "delegates-to-xapyb", bool(calls or dep), fn.where(), "calls xapyb" if (calls or dep) else "does not delegate to the guarded xapyb")
+    for fn in defs:
+        if fn.qn == "stir::Array::resize" and fn.sig.replace(" ", "") == "constint,constint" and not fn.is_dependent and fn.cfg_raw:
+            rule_d_zero_fill(ctx, fn)
+            break
+    else:
+        ctx.fail_broken("anchor Array<1,T>::resize(int,int) instantiation not found")
+    ctx.require_count("C11.d-new-elements-zeroed", 3)
     ctx.stats["definitions_analysed"] = len(defs)
     ctx.require_count("C11.a-index-provenance", 60)
     ctx.require_count("C11.b-checked-access", 2)
